@@ -39,7 +39,14 @@ BagEqRows(exp, o) ==
   /\ LET er == [r \in 1..exp.n |-> Row(exp, r)]  orr == [j \in 1..o.len |-> ORow(o, j)]
      IN \A j \in 1..o.len : CountEq(orr, o.len, orr[j]) = CountEq(er, exp.n, orr[j])
 
-Judge(e, Fr, Gr) ==
+\* C10: once Err is set no user callback runs (the harness counts calls of every function it hands in)
+GrouperOps == {"Aggregate", "QFrames"}
+CallsOK(e, Fr, Gr) ==
+  IF e.recv < 0 THEN TRUE
+  ELSE IF e.op \in GrouperOps THEN (Gr[e.recv + 1].err => e.calls = 0)
+  ELSE (Fr[e.recv + 1].err => e.calls = 0)
+
+JudgeOp(e, Fr, Gr) ==
   LET R == Fr[e.recv + 1] IN
   CASE e.op = "New"    -> Det(e, NewSem(e.a))
     [] e.op = "Select" -> Det(e, SelectSem(R, e.a.cols))
@@ -80,4 +87,6 @@ Judge(e, Fr, Gr) ==
          IF R.err \/ ~HasCol(R, e.a.col) THEN PlainU("unspec", TRUE)
          ELSE [Plain(e.vcells = ColOf(R, e.a.col).cells) EXCEPT !.newvd = <<e.vdig>>]
     [] OTHER -> JudgeIO(e, Fr, Gr)
+
+Judge(e, Fr, Gr) == LET j == JudgeOp(e, Fr, Gr) IN [j EXCEPT !.ok = @ /\ CallsOK(e, Fr, Gr)]
 =============================================================================
